@@ -135,6 +135,7 @@ def run_property(prop, tier, *, jobs=None, only=None, verbose=False,
     native_repo: dict[str, int] = {}
     unordered_natives: dict[str, int] = {}
     paths_total = 0
+    nontrivial_total = 0
     for r in normal:
         if r["fault"]:
             faults.append(f"{r['contract']}[{r['instance']}]: {r['fault']}")
@@ -152,6 +153,7 @@ def run_property(prop, tier, *, jobs=None, only=None, verbose=False,
                 native_repo[k.split(":", 1)[1]] = native_repo.get(
                     k.split(":", 1)[1], 0) + v
         paths_total += r["paths"]
+        nontrivial_total += r.get("nontrivial_paths", 0)
         if not r["obligations"] and not r["fault"] and not r["undecided"] \
                 and not r.get("generated_any_prop"):
             # an instance that generates no obligation at all is vacuous
@@ -326,6 +328,15 @@ def run_property(prop, tier, *, jobs=None, only=None, verbose=False,
                 distinct_obligation_keys=len(by_key),
                 structural_instances=len(normal),
                 paths_explored=paths_total,
+                evaluations=paths_total,
+                distinct_nontrivial=nontrivial_total,
+                rule=pmeta.get("evaluation_rule") or (
+                    "one evaluation = one interpreted execution of the real "
+                    "functions under contract along one feasible path of one "
+                    "structural instance (instances and decision vectors are "
+                    "enumerated, hence distinct); it counts as non-trivial if "
+                    "it generated at least one obligation"),
+                exhaustive=bool(pmeta.get("exhaustive", False)),
                 canaries_refuted=f"{canary_ok}/{len(canary_tasks)}",
                 backends=backends,
                 solver_seconds=round(solver_s, 2),
